@@ -6515,22 +6515,21 @@ impl<Front: SocketHandler> ConnectionH2<Front> {
                     let stream = &context.streams[stream_gid];
                     let fully_completed =
                         stream.back_received_end_of_stream && stream.front.is_terminated();
-                    if !fully_completed && !self.rst_sent.contains(&id) {
-                        let kawa = &mut self.zero;
-                        let mut frame = [0; 13];
-                        if let Ok((_, _size)) =
-                            serializer::gen_rst_stream(&mut frame, id, H2Error::Cancel)
-                        {
-                            let buf = kawa.storage.space();
-                            if buf.len() >= frame.len() {
-                                buf[..frame.len()].copy_from_slice(&frame);
-                                kawa.storage.fill(frame.len());
-                                incr!(names::h2::FRAMES_TX_RST_STREAM);
-                                count!(metric_for_rst_stream_sent(H2Error::Cancel), 1);
-                                self.readiness.arm_writable();
-                                self.rst_sent.insert(id);
-                            }
-                        }
+                    if !fully_completed && self.rst_sent.insert(id) {
+                        // Queue the frame for the writable path, like every other
+                        // RST_STREAM. It used to be copied straight into
+                        // `self.zero.storage`, which is also the buffer the read
+                        // path parses the peer's frames from: the frame was never
+                        // sent, the next readable event parsed our own 13 bytes as
+                        // a peer frame, answered GOAWAY(FRAME_SIZE_ERROR) and
+                        // dropped the backend connection with every stream on it.
+                        // Not through `enqueue_rst`: cancelling our own request is
+                        // not peer misbehaviour and must not count toward the
+                        // peer-driven RST_STREAM caps of a shared backend connection.
+                        self.pending_rst_streams.push((id, H2Error::Cancel));
+                        incr!(names::h2::FRAMES_TX_RST_STREAM);
+                        count!(metric_for_rst_stream_sent(H2Error::Cancel), 1);
+                        self.readiness.arm_writable();
                     }
                     // Retire the stream and invalidate expect_write/expect_read
                     // if they still reference this gid — the slot may be popped
